@@ -694,12 +694,18 @@ def corruptItemOk (item : Bytes) : Bool :=
     | .ok (some _) => true
     | _ => false
 
+def truthy (v : Val DT) : Bool :=
+  match v with
+  | .bool b => b
+  | .none => false
+  | _ => true
+
 def intOf (v : Val DT) : Option Int :=
   match v with
   | .int z => some z
   | _ => none
 
-/-- the per-event checks (base.py:162-185) -/
+/-- the per-event checks (base.py:162-190) -/
 def eventOk (K : FilterConsts) (tbl : List OptionRow) (o : Nat → Val DT) (name : Bytes) : Bool :=
   match K.eventTypes.find? (fun e => ascii e == name) with
   | none => true                 -- unknown event names are ignored by the EventFactory
@@ -708,6 +714,10 @@ def eventOk (K : FilterConsts) (tbl : List OptionRow) (o : Nat → Val DT) (name
     (match f "count" with | some z => decide (z ≤ (K.maxEventCount : Int)) | none => true) &&
     (match f "timescale" with | some z => decide (1 ≤ z) | none => true) &&
     (match f "duration" with | some z => decide (0 ≤ z) | none => true) &&
+    -- an out-of-band event must not start before the presentation (fix 23db72d)
+    (match f "start" with
+     | some z => decide (0 ≤ z) || truthy (getField tbl o (e ++ "." ++ "inband"))
+     | none => true) &&
     (match f "version" with | some z => z == 0 || z == 1 | none => true)
 
 def spanOk (K : FilterConsts) (v : Val DT) : Bool :=
@@ -815,12 +825,6 @@ def removeUnused (K : FilterConsts) (tbl : List OptionRow) (mode : Bytes) (o : N
           ((mode != ascii "live" && K.liveOnly.contains r.full) || K.drmUnused.contains r.full) then none
       else some (o i)
     | none => some (o i)
-
-def truthy (v : Val DT) : Bool :=
-  match v with
-  | .bool b => b
-  | .none => false
-  | _ => true
 
 /-- why a manifest request is refused before rendering -/
 inductive Reject where
